@@ -3,7 +3,7 @@
 package loadaware
 
 // C18 monitor: low-node-load balancing. A real LowNodeLoad (built by NewLowNodeLoad over a fake
-// handle) is run for 1-7 successive Balance rounds over generated clusters; a recording evictor
+// handle) is run for 1-10 successive Balance rounds over generated clusters; a recording evictor
 // with scripted refusals observes every Evict(pod). After each round the monitor recomputes the
 // usage/threshold table from the NodeMetric objects, the pod lists and the pool configuration and
 // checks every Evict call against the statement. See /verif/DESIGN.md section 4, C18.
@@ -15,9 +15,13 @@ package loadaware
 // that pass' headroom positive); unmeasured rounds neither extend nor break an over-threshold
 // streak; only Evict calls are judged (an over-loaded node that is not relieved is counted as
 // converse_misses_*, never a verdict). Signature suffixes .../on-threshold-float-truncated,
-// .../pod-count-ignores-metricless-evictions, .../after-interrupted-streak and
-// .../after-qualified-streak are diagnostics computed from the inputs that name the identifying
-// fact of a violation; they do not change what is a violation.
+// .../pod-count-ignores-metricless-evictions, .../after-interrupted-streak,
+// .../deviation-threshold-float (node on, or less than a unit under, its exact mean+deviation
+// threshold) and .../raw-allocatable-drops-unlisted-dimension (amplified node in a pool that
+// thresholds a dimension its raw-allocatable annotation does not list) are diagnostics computed
+// from the inputs that name the identifying fact of a violation; they never change what is a
+// violation. An anomaly that a qualifying run opened and that is kept open across measured
+// not-over rounds is counted (anomaly_open_kept_across_not_over_round), not asserted.
 //
 // Causal rules of the generator (what the real system can produce):
 //   * a NodeMetric reports NodeUsage = SystemUsage + sum of PodsMetric usages (no host applications);
@@ -29,10 +33,14 @@ package loadaware
 //   * fresh metrics are stamped "now", stale ones one hour ago (expiration 180 s): no decision is
 //     taken near a deadline; detector cache timeout and anomaly timeout are one hour, so no detector
 //     state expires during a case (rounds follow each other faster than every timeout);
-//   * node pools select disjoint node sets; every pod carries an explicit koordinator priority class.
+//   * node pools select disjoint node sets; every pod carries a koordinator priority class, by label or by
+//     a spec.priority inside a documented band; terminated pods report no usage;
+//   * an amplified node carries amplified cpu and/or memory in its status and the un-amplified cpu AND
+//     memory (never pods) in its raw-allocatable annotation, as the node webhook writes it.
 
 import (
 	"context"
+	"encoding/json"
 	"fmt"
 	"math/big"
 	"sort"
@@ -70,6 +78,8 @@ const (
 	c18PoolLabel     = "c18/pool"
 	c18AnnoFilter    = "c18/filter-until"
 	c18AnnoRefuse    = "c18/refuse"
+	c18PodSelLabel   = "c18/sel"
+	c18TaintKey      = "c18/taint"
 	c18PassNode      = 0
 	c18PassProd      = 1
 	c18RoleOver      = 0
@@ -94,8 +104,10 @@ var (
 
 type c18Pod struct {
 	name, node  string
+	ns          string
 	prod        bool
-	filterUntil int // -1 always passes the evictor's filter, k >= 0: passes only while fewer than k Evict calls were made this round
+	terminated  bool // phase Succeeded/Failed: listed by the pod index, not running, reports no usage
+	filterUntil int  // -1 always passes the evictor's filter, k >= 0: passes only while fewer than k Evict calls were made this round
 	refuse      bool
 	obj         *corev1.Pod
 	hasMetric   bool
@@ -115,6 +127,8 @@ type c18Node struct {
 	maxRunBefore     int  // longest completed earlier run of consecutive over-threshold rounds
 	evictedEarlier   bool // an Evict call was made for a pod of this node in an earlier round
 	truncOnThreshold bool // in an earlier round of the current history the node sat exactly on a high threshold that the shipped float formula truncates
+	rawDropsDim      bool // the node carries a raw-allocatable annotation that does not list a dimension (pods) its pool thresholds
+	devOnThreshold   bool // in an earlier round the node sat on / less than one unit under an exact deviation high threshold without being over it
 	bridgedUnmeasure bool
 }
 
@@ -122,7 +136,9 @@ type c18PoolCfg struct {
 	name     string
 	selector string // "" = no selector
 	dev      bool
-	pct      [2][2]map[corev1.ResourceName]int // [pass][0 low,1 high][resource] -> percentage (absolute) or deviation
+	pct      [2][2]map[corev1.ResourceName]int // [pass][0 low,1 high][resource] -> percentage (absolute) or deviation, whole part
+	qtr      [2][2]map[corev1.ResourceName]int // quarters of a percent added to pct (0..3); thresholds may be fractional
+	exprSel  bool                              // the node selector is written with matchExpressions
 	anomaly  *deschedulerconfig.LoadAnomalyCondition
 	need     int
 	base     map[corev1.ResourceName]int // deviation mode: per-round aim of the mean, generator only
@@ -138,8 +154,28 @@ func (p *c18PoolCfg) res(pass int) []corev1.ResourceName {
 	return out
 }
 
+func (p *c18Pod) key() string { return p.ns + "/" + p.name }
+
+// rat / flt: the configured percentage (whole part + quarters).
+func (p *c18PoolCfg) rat(pass, which int, res corev1.ResourceName) *big.Rat {
+	return big.NewRat(int64(4*p.pct[pass][which][res]+p.qtr[pass][which][res]), 4)
+}
+
+func (p *c18PoolCfg) flt(pass, which int, res corev1.ResourceName) float64 {
+	return float64(p.pct[pass][which][res]) + float64(p.qtr[pass][which][res])/4
+}
+
+// c18Floor: the largest whole usage that is not above pct percent of alloc.
+func c18Floor(pct *big.Rat, alloc int64) int64 {
+	v := new(big.Rat).Mul(pct, big.NewRat(alloc, 100))
+	if v.Sign() < 0 {
+		return 0
+	}
+	return new(big.Int).Quo(v.Num(), v.Denom()).Int64()
+}
+
 type c18Event struct {
-	pod, node   string
+	pod, node   string // pod = namespace/name
 	callsBefore int
 	ok          bool
 	reason      string
@@ -148,8 +184,8 @@ type c18Event struct {
 type c18World struct {
 	c      *kit.Case
 	nodes  []*c18Node
-	pods   []*c18Pod // live pods in creation order
-	byName map[string]*c18Pod
+	pods   []*c18Pod          // live pods in creation order
+	byName map[string]*c18Pod // by namespace/name
 	// evictor state of the running round
 	calls, okCount, okLimit int
 	filterCalls             int
@@ -188,7 +224,7 @@ func (e *c18Evictor) PreEvictionFilter(pod *corev1.Pod) bool { return true }
 func (e *c18Evictor) Evict(ctx context.Context, pod *corev1.Pod, opts framework.EvictOptions) bool {
 	w := e.w
 	ok := pod.Annotations[c18AnnoRefuse] != "true" && w.okCount < w.okLimit
-	w.events = append(w.events, c18Event{pod: pod.Name, node: pod.Spec.NodeName, callsBefore: w.calls, ok: ok, reason: opts.Reason})
+	w.events = append(w.events, c18Event{pod: pod.Namespace + "/" + pod.Name, node: pod.Spec.NodeName, callsBefore: w.calls, ok: ok, reason: opts.Reason})
 	w.calls++
 	if ok {
 		w.okCount++
@@ -229,10 +265,12 @@ func c18PickPct(r *kit.Rand, lo, hi int) int {
 }
 
 func c18GenPool(r *kit.Rand, name, selector string) *c18PoolCfg {
-	p := &c18PoolCfg{name: name, selector: selector, dev: r.Pct(30)}
+	p := &c18PoolCfg{name: name, selector: selector, dev: r.Pct(35)}
 	for pass := 0; pass < 2; pass++ {
 		p.pct[pass][0] = map[corev1.ResourceName]int{}
 		p.pct[pass][1] = map[corev1.ResourceName]int{}
+		p.qtr[pass][0] = map[corev1.ResourceName]int{}
+		p.qtr[pass][1] = map[corev1.ResourceName]int{}
 	}
 	nodeRes := map[corev1.ResourceName]bool{corev1.ResourceCPU: r.Pct(85), corev1.ResourceMemory: r.Pct(55), corev1.ResourcePods: r.Pct(25)}
 	prodOn := r.Pct(45)
@@ -292,15 +330,56 @@ func c18GenPool(r *kit.Rand, name, selector string) *c18PoolCfg {
 			p.pct[c18PassProd][0][res], p.pct[c18PassProd][1][res] = lo, hi
 		}
 	}
-	// need: the configured number of consecutive over-threshold rounds (1 when no condition is set)
-	p.need = []int{1, 1, 2, 3}[r.Weighted(10, 35, 35, 20)]
+	// rare end points of the absolute scale: a high threshold of 100 % (nothing can be above it) and a
+	// low threshold of 0 % (only an idle node is under it). Deviation 0 means "resource disabled" to the
+	// code and is never generated.
+	if !p.dev {
+		for _, res := range []corev1.ResourceName{corev1.ResourceCPU, corev1.ResourceMemory} {
+			if _, ok := p.pct[c18PassNode][0][res]; ok && r.Pct(4) {
+				p.pct[c18PassNode][1][res] = 100
+			}
+			if _, ok := p.pct[c18PassNode][0][res]; ok && r.Pct(3) {
+				p.pct[c18PassNode][0][res] = 0
+			}
+		}
+	}
+	// fractional percentages (quarters), keeping low <= high and prodHigh <= high as the validation demands
+	if r.Pct(14) {
+		for pass := 0; pass < 2; pass++ {
+			for _, res := range p.res(pass) {
+				lo, hi := r.Intn(4), r.Intn(4)
+				if p.pct[pass][0][res] == p.pct[pass][1][res] && lo > hi {
+					lo, hi = hi, lo
+				}
+				if p.pct[pass][1][res] >= 100 {
+					hi = 0
+					if p.pct[pass][0][res] >= 100 {
+						lo = 0
+					}
+				}
+				if pass == c18PassProd {
+					if nh, ok := p.pct[c18PassNode][1][res]; ok && nh == p.pct[pass][1][res] && hi > p.qtr[c18PassNode][1][res] {
+						hi = p.qtr[c18PassNode][1][res]
+						if p.pct[pass][0][res] == p.pct[pass][1][res] && lo > hi {
+							lo = hi
+						}
+					}
+				}
+				p.qtr[pass][0][res], p.qtr[pass][1][res] = lo, hi
+			}
+		}
+	}
+	// need: the configured number of consecutive over-threshold rounds (1 when no condition is set);
+	// 5 abnormalities / 3 normalities are the shipped defaults
+	p.need = []int{1, 1, 2, 3, 4, 5}[r.Weighted(10, 33, 30, 17, 5, 5)]
 	if p.need > 1 || r.Pct(78) {
 		p.anomaly = &deschedulerconfig.LoadAnomalyCondition{
 			Timeout:                  metav1.Duration{Duration: time.Hour},
 			ConsecutiveAbnormalities: uint32(p.need),
-			ConsecutiveNormalities:   uint32(r.Range(1, 3)),
+			ConsecutiveNormalities:   uint32([]int{1, 2, 3, 4, 5}[r.Weighted(30, 30, 30, 5, 5)]),
 		}
 	}
+	p.exprSel = selector != "" && r.Pct(30)
 	return p
 }
 
@@ -311,7 +390,8 @@ func (p *c18PoolCfg) thresholds(pass, which int) deschedulerconfig.ResourceThres
 	out := deschedulerconfig.ResourceThresholds{}
 	for _, res := range c18Res {
 		if v, ok := p.pct[pass][which][res]; ok {
-			out[res] = deschedulerconfig.Percentage(v)
+			_ = v
+			out[res] = deschedulerconfig.Percentage(p.flt(pass, which, res))
 		}
 	}
 	return out
@@ -326,7 +406,7 @@ func (p *c18PoolCfg) String() string {
 	}
 	for pass := 0; pass < 2; pass++ {
 		for _, res := range p.res(pass) {
-			s += fmt.Sprintf(" %s.%s=%d..%d", c18PassName[pass], res, p.pct[pass][0][res], p.pct[pass][1][res])
+			s += fmt.Sprintf(" %s.%s=%v..%v", c18PassName[pass], res, p.flt(pass, 0, res), p.flt(pass, 1, res))
 		}
 	}
 	return s
@@ -415,25 +495,82 @@ func c18Split(r *kit.Rand, total int64, k int) []int64 {
 }
 
 func (w *c18World) addPod(r *kit.Rand, n *c18Node) {
-	p := &c18Pod{name: fmt.Sprintf("p%d", w.nextPod), node: n.name, prod: r.Bool(), refuse: r.Pct(12)}
+	p := &c18Pod{name: fmt.Sprintf("p%d", w.nextPod), node: n.name, ns: "default", refuse: r.Pct(12)}
 	w.nextPod++
+	if r.Pct(20) {
+		p.ns = "ns2"
+	}
+	if r.Pct(8) {
+		// same pod name in the other namespace as a pod that already lives on this node
+		for _, q := range w.pods {
+			other := map[string]string{"default": "ns2", "ns2": "default"}[q.ns]
+			if q.node == n.name && w.byName[other+"/"+q.name] == nil {
+				p.name, p.ns = q.name, other
+				break
+			}
+		}
+	}
 	p.filterUntil = []int{-1, 0, 1, 2}[r.Weighted(70, 15, 8, 7)]
+	p.terminated = r.Pct(4)
 	reqCPU := int64(r.Range(0, 50))
 	reqMem := int64(r.Range(0, 200))
 	if r.Pct(5) {
 		reqCPU = n.alloc[corev1.ResourceCPU] // does not fit anywhere else
 	}
+	// priority class: the koordinator label, or (without label) spec.priority inside a documented band;
+	// a label overrides a conflicting spec.priority
+	label, prio := "", int32(0)
+	switch r.Weighted(40, 35, 6, 4, 6, 5, 2, 2) {
+	case 0:
+		label, p.prod = string(apiext.PriorityProd), true
+	case 1:
+		label = string(apiext.PriorityBatch)
+	case 2:
+		label = string(apiext.PriorityMid)
+	case 3:
+		label = string(apiext.PriorityFree)
+	case 4:
+		prio, p.prod = int32(r.Range(int(apiext.PriorityProdValueMin), int(apiext.PriorityProdValueMax))), true
+	case 5:
+		prio = int32(r.Range(int(apiext.PriorityBatchValueMin), int(apiext.PriorityBatchValueMax)))
+	case 6:
+		label, prio = string(apiext.PriorityBatch), 9500
+	default:
+		label, prio, p.prod = string(apiext.PriorityProd), 5500, true
+	}
 	p.obj = test.BuildTestPod(p.name, reqCPU, reqMem, n.name, func(pod *corev1.Pod) {
-		cls := apiext.PriorityBatch
-		if p.prod {
-			cls = apiext.PriorityProd
+		pod.Namespace = p.ns
+		pod.Labels = map[string]string{}
+		if label != "" {
+			pod.Labels[apiext.LabelPodPriorityClass] = label
 		}
-		pod.Labels = map[string]string{apiext.LabelPodPriorityClass: string(cls)}
+		if prio != 0 {
+			pod.Spec.Priority = &prio
+		}
+		if r.Pct(70) {
+			pod.Labels[c18PodSelLabel] = "y"
+		}
+		if r.Pct(20) {
+			pod.Spec.Tolerations = []corev1.Toleration{{Key: c18TaintKey, Operator: corev1.TolerationOpExists}}
+		}
 		pod.Annotations = map[string]string{c18AnnoFilter: strconv.Itoa(p.filterUntil), c18AnnoRefuse: strconv.FormatBool(p.refuse)}
 		pod.Status.Phase = corev1.PodRunning
+		if p.terminated {
+			pod.Status.Phase = kit.Pick(r, []corev1.PodPhase{corev1.PodSucceeded, corev1.PodFailed})
+		}
 	})
 	w.pods = append(w.pods, p)
-	w.byName[p.name] = p
+	w.byName[p.key()] = p
+	other := map[string]string{"default": "ns2", "ns2": "default"}[p.ns]
+	if w.byName[other+"/"+p.name] != nil {
+		w.c.Count("pods_same_name_in_two_namespaces", 1)
+	}
+	if p.terminated {
+		w.c.Count("terminated_pods", 1)
+	}
+	if label == "" {
+		w.c.Count("pods_classified_by_priority_value", 1)
+	}
 }
 
 func (w *c18World) livePods(node string) []*c18Pod {
@@ -451,7 +588,7 @@ func (w *c18World) genMetrics(r *kit.Rand, n *c18Node, pool *c18PoolCfg) {
 	pods := w.livePods(n.name)
 	var prodM, otherM []*c18Pod
 	for _, p := range pods {
-		p.hasMetric = r.Pct(80)
+		p.hasMetric = r.Pct(80) && !p.terminated
 		p.m = nil
 		if p.hasMetric {
 			p.m = map[corev1.ResourceName]int64{}
@@ -471,20 +608,32 @@ func (w *c18World) genMetrics(r *kit.Rand, n *c18Node, pool *c18PoolCfg) {
 			if pool == nil {
 				return r.Int63n(alloc + 1)
 			}
-			lo, ok := pool.pct[pass][0][res]
-			if !ok {
+			if _, ok := pool.pct[pass][0][res]; !ok {
 				return r.Int63n(alloc + 1)
 			}
-			hi := pool.pct[pass][1][res]
+			lo, hi := pool.rat(pass, 0, res), pool.rat(pass, 1, res)
 			if pool.dev {
-				lo, hi = pool.base[res]-lo, pool.base[res]+hi
+				base := new(big.Rat).SetInt64(int64(pool.base[res]))
+				lo, hi = new(big.Rat).Sub(base, lo), new(big.Rat).Add(base, hi)
 			}
-			tl := c18Clamp(int64(lo), 0, 100) * alloc / 100
-			th := c18Clamp(int64(hi), 0, 100) * alloc / 100
+			hundred := big.NewRat(100, 1)
+			if lo.Cmp(hundred) > 0 {
+				lo = hundred
+			}
+			if hi.Cmp(hundred) > 0 {
+				hi = hundred
+			}
+			tl, th := c18Floor(lo, alloc), c18Floor(hi, alloc)
 			if role == c18RoleOver && !overThis {
 				role = kit.Pick(r, []int{c18RoleUnder, c18RoleMid})
 			}
-			return c18Place(r, role, tl, th, alloc)
+			v := c18Place(r, role, tl, th, alloc)
+			if pass == c18PassNode && role == c18RoleOver && r.Pct(8) {
+				// usage above the allocatable (allocatable = capacity - reserved), only for a resource that
+				// has a whole-node threshold: an unthresholded resource must not decide anything
+				v = alloc + r.Int63n(alloc/10+1)
+			}
+			return v
 		}
 		total := aim(c18PassNode, n.role[c18PassNode], r.Pct(65))
 		up := aim(c18PassProd, n.role[c18PassProd], r.Pct(65))
@@ -523,8 +672,8 @@ func (w *c18World) genMetrics(r *kit.Rand, n *c18Node, pool *c18PoolCfg) {
 		sys[res] = total - up - wsum
 		// aim at a landing exactly on the high threshold after one eviction
 		if pool != nil && !pool.dev && n.role[c18PassNode] == c18RoleOver && len(prodM)+len(otherM) > 0 && r.Pct(35) {
-			if hi, ok := pool.pct[c18PassNode][1][res]; ok {
-				th := int64(hi) * alloc / 100
+			if _, ok := pool.pct[c18PassNode][1][res]; ok {
+				th := c18Floor(pool.rat(c18PassNode, 1, res), alloc)
 				cand := append(append([]*c18Pod{}, prodM...), otherM...)
 				pj := kit.Pick(r, cand)
 				want := th + pj.m[res]
@@ -554,12 +703,13 @@ func (w *c18World) genMetrics(r *kit.Rand, n *c18Node, pool *c18PoolCfg) {
 	case c18MetricStale:
 		nm.Status.UpdateTime = &metav1.Time{Time: time.Now().Add(-time.Hour)}
 	}
+	omitZero := r.Pct(10)
 	rl := func(m map[corev1.ResourceName]int64) corev1.ResourceList {
 		out := corev1.ResourceList{}
-		if v, ok := m[corev1.ResourceCPU]; ok {
+		if v, ok := m[corev1.ResourceCPU]; ok && !(omitZero && v == 0) {
 			out[corev1.ResourceCPU] = *resource.NewMilliQuantity(v, resource.DecimalSI)
 		}
-		if v, ok := m[corev1.ResourceMemory]; ok {
+		if v, ok := m[corev1.ResourceMemory]; ok && !(omitZero && v == 0) {
 			out[corev1.ResourceMemory] = *resource.NewQuantity(v, resource.BinarySI)
 		}
 		return out
@@ -572,7 +722,7 @@ func (w *c18World) genMetrics(r *kit.Rand, n *c18Node, pool *c18PoolCfg) {
 		for res, v := range p.m {
 			tot[res] += v
 		}
-		nm.Status.PodsMetric = append(nm.Status.PodsMetric, &slov1alpha1.PodMetricInfo{Namespace: "default", Name: p.name, PodUsage: slov1alpha1.ResourceMap{ResourceList: rl(p.m)}})
+		nm.Status.PodsMetric = append(nm.Status.PodsMetric, &slov1alpha1.PodMetricInfo{Namespace: p.ns, Name: p.name, PodUsage: slov1alpha1.ResourceMap{ResourceList: rl(p.m)}})
 	}
 	if ghost {
 		for res, v := range ghostM {
@@ -587,6 +737,223 @@ func (w *c18World) genMetrics(r *kit.Rand, n *c18Node, pool *c18PoolCfg) {
 		}
 	}
 	n.nm = nm
+}
+
+// devBoundary moves one measured node of a deviation-threshold pool onto the boundary of its own
+// deviation threshold. With N measured nodes, capacity c and S = sum of used/capacity over the OTHER
+// nodes, node k is above mean+d % exactly when u > u* = c*(S + N*d/100)/(N-1), and under mean-d % exactly
+// when u <= c*(S - N*d/100)/(N-1) (the node's own usage moves the mean). Where capacities allow it the
+// other nodes are first snapped to whole percentages chosen so that u* is a whole amount: the node then
+// sits exactly on mean+d. Only the system usage is edited, so NodeUsage = system + pods still holds.
+func (w *c18World) devBoundary(r *kit.Rand, pool *c18PoolCfg, round int) {
+	var cand []corev1.ResourceName
+	for _, res := range []corev1.ResourceName{corev1.ResourceCPU, corev1.ResourceMemory} {
+		if _, ok := pool.pct[c18PassNode][0][res]; ok {
+			cand = append(cand, res)
+		}
+	}
+	var ms []*c18Node
+	for _, n := range w.nodes {
+		if (pool.selector == "" || pool.selector == n.pool) && n.metricState == c18MetricFresh && n.nm != nil && n.nm.Status.NodeMetric != nil {
+			ms = append(ms, n)
+		}
+	}
+	if len(cand) == 0 || len(ms) < 2 {
+		return
+	}
+	res := kit.Pick(r, cand)
+	N := int64(len(ms))
+	used := func(n *c18Node) int64 { return c18QVal(res, n.nm.Status.NodeMetric.NodeUsage.ResourceList) }
+	sysOf := func(n *c18Node) int64 { return c18QVal(res, n.nm.Status.NodeMetric.SystemUsage.ResourceList) }
+	set := func(n *c18Node, total int64) bool {
+		sys := sysOf(n) + total - used(n)
+		if sys < 0 || total > n.alloc[res] {
+			return false
+		}
+		q := func(v int64) resource.Quantity {
+			if res == corev1.ResourceCPU {
+				return *resource.NewMilliQuantity(v, resource.DecimalSI)
+			}
+			return *resource.NewQuantity(v, resource.BinarySI)
+		}
+		if n.nm.Status.NodeMetric.SystemUsage.ResourceList == nil {
+			n.nm.Status.NodeMetric.SystemUsage.ResourceList = corev1.ResourceList{}
+		}
+		if n.nm.Status.NodeMetric.NodeUsage.ResourceList == nil {
+			n.nm.Status.NodeMetric.NodeUsage.ResourceList = corev1.ResourceList{}
+		}
+		n.nm.Status.NodeMetric.SystemUsage.ResourceList[res] = q(sys)
+		n.nm.Status.NodeMetric.NodeUsage.ResourceList[res] = q(total)
+		return true
+	}
+	ki := r.Intn(len(ms))
+	high := r.Pct(70)
+	if high && r.Pct(70) {
+		// prefer a node that has something to evict and that tends to be over (sticky role)
+		var pref []int
+		for i, n := range ms {
+			for _, p := range w.livePods(n.name) {
+				if p.filterUntil < 0 && !p.refuse && !p.terminated && n.role[c18PassNode] == c18RoleOver {
+					pref = append(pref, i)
+					break
+				}
+			}
+		}
+		if len(pref) > 0 {
+			ki = kit.Pick(r, pref)
+		}
+	}
+	k := ms[ki]
+	which := 0
+	if high {
+		which = 1
+	}
+	d := pool.rat(c18PassNode, which, res) // deviation in percent
+	exact := true
+	for _, n := range ms {
+		if n.alloc[res]%100 != 0 {
+			exact = false
+		}
+	}
+	steered := false
+	homog := true
+	for _, n := range ms {
+		if n.alloc[res] != k.alloc[res] {
+			homog = false
+		}
+	}
+	if nd := new(big.Rat).Mul(big.NewRat(N*k.alloc[res], 100), d); homog && nd.IsInt() && r.Pct(80) {
+		// equal capacities c: u* = (sum of the others' usages +- N*d*c/100)/(N-1) is a whole amount as soon as
+		// the numerator is divisible by N-1 - any usages will do, shift one of them by less than N-1 units
+		sum := nd.Num().Int64()
+		if !high {
+			sum = -sum
+		}
+		for i, n := range ms {
+			if i != ki {
+				sum += used(n)
+			}
+		}
+		if rem := (sum%(N-1) + (N - 1)) % (N - 1); rem != 0 {
+			for i, n := range ms {
+				if i != ki && rem != 0 && (set(n, used(n)+(N-1-rem)) || set(n, used(n)-rem)) {
+					rem = 0
+				}
+			}
+		}
+	} else if exact && d.IsInt() && r.Pct(75) {
+		dd := d.Num().Int64()
+		if !high {
+			dd = -dd
+		}
+		// Search whole percentages for the other nodes such that u* is a whole amount: (sum +- N*d)
+		// divisible by N-1. Among those prefer (generator bias only; the oracle never looks at it) a
+		// placement on which the mean differs between exact and float64 arithmetic whatever the
+		// summation order - percentages p with float64(p/100)*100 != p (0.57*100 = 56.99999999999999).
+		minPct := make([]int64, len(ms)) // below it the node's system usage would be negative
+		for i, n := range ms {
+			unit := n.alloc[res] / 100
+			minPct[i] = (used(n) - sysOf(n) + unit - 1) / unit
+		}
+		var fallback, found []int64
+		var perms [][]int
+		if N <= 4 {
+			perms = c18Perms(int(N))
+		}
+		for attempt := 0; attempt < 100 && found == nil; attempt++ {
+			pcts := make([]int64, len(ms))
+			sum := int64(0)
+			for i, n := range ms {
+				if i == ki {
+					continue
+				}
+				switch {
+				case attempt == 0:
+					pcts[i] = used(n) / (n.alloc[res] / 100)
+				case r.Bool():
+					pcts[i] = int64(kit.Pick(r, []int{7, 14, 28, 29, 55, 56, 57, 58}))
+				default:
+					pcts[i] = int64(r.Range(0, 100))
+				}
+				if pcts[i] < minPct[i] {
+					pcts[i] = minPct[i]
+				}
+				if pcts[i] > 100 {
+					sum = -1 << 40
+				}
+				sum += pcts[i]
+			}
+			if sum < 0 || (sum+N*dd)%(N-1) != 0 {
+				continue
+			}
+			pk := (sum + N*dd) / (N - 1)
+			if pk < minPct[ki] || pk > 100 || pk < 0 {
+				continue
+			}
+			pcts[ki] = pk
+			if fallback == nil {
+				fallback = pcts
+			}
+			if !high || perms == nil {
+				break
+			}
+			target := pk * (k.alloc[res] / 100)
+			slip := true
+			for _, perm := range perms {
+				f := 0.0
+				for _, j := range perm {
+					f += float64(pcts[j]*(ms[j].alloc[res]/100)) / float64(ms[j].alloc[res]) * 100.0
+				}
+				if int64((f/float64(N)+float64(dd))*float64(k.alloc[res])/100) >= target {
+					slip = false
+					break
+				}
+			}
+			if slip {
+				found = pcts
+			}
+		}
+		if found != nil {
+			steered = true
+			fallback = found
+		}
+		if fallback != nil {
+			for i, n := range ms {
+				if i != ki && !set(n, fallback[i]*(n.alloc[res]/100)) {
+					w.c.Harness("deviation boundary: cannot set %s to %d %%", n.name, fallback[i])
+				}
+			}
+		}
+	}
+	S := new(big.Rat)
+	for i, n := range ms {
+		if i != ki {
+			S.Add(S, big.NewRat(used(n), n.alloc[res]))
+		}
+	}
+	nd := new(big.Rat).Mul(big.NewRat(N, 100), d)
+	if high {
+		S.Add(S, nd)
+	} else {
+		S.Sub(S, nd)
+	}
+	ustar := S.Mul(S, big.NewRat(k.alloc[res], N-1))
+	if ustar.Sign() < 0 {
+		return
+	}
+	base := new(big.Int).Quo(ustar.Num(), ustar.Denom()).Int64() // last whole usage not above (high) / still under (low)
+	off := int64([]int{0, 1, -1}[r.Weighted(60, 22, 18)])
+	if steered {
+		off = 0
+		w.c.Count("deviation_boundary_placements_float64_hostile", 1)
+	}
+	if set(k, base+off) {
+		w.c.Count("deviation_boundary_placements", 1)
+		if ustar.IsInt() && off == 0 {
+			w.c.Count("deviation_boundary_placements_exact", 1)
+		}
+		w.c.Op("round %d deviation boundary: %s %s moved to %d (%s boundary %s, offset %d)", round, k.name, res, base+off, []string{"low", "high"}[which], c18RatStr(ustar), off)
+	}
 }
 
 // ---------------------------------------------------------------------------------------------
@@ -618,6 +985,21 @@ type c18Table struct {
 	evictCalls     int
 }
 
+// c18Capacity: the amount a percentage of the node refers to: the un-amplified figure for the
+// dimensions the raw-allocatable annotation lists, status.allocatable for every other dimension.
+func c18Capacity(c *kit.Case, node *corev1.Node, res corev1.ResourceName) int64 {
+	if s, ok := node.Annotations[apiext.AnnotationNodeRawAllocatable]; ok {
+		raw := corev1.ResourceList{}
+		if err := json.Unmarshal([]byte(s), &raw); err != nil {
+			c.Harness("raw allocatable annotation: %v", err)
+		}
+		if _, ok := raw[res]; ok {
+			return c18QVal(res, raw)
+		}
+	}
+	return c18QVal(res, node.Status.Allocatable)
+}
+
 func c18QVal(res corev1.ResourceName, rl corev1.ResourceList) int64 {
 	q, ok := rl[res]
 	if !ok {
@@ -640,6 +1022,49 @@ func c18Cmp(u int64, t *big.Rat) (int, bool) {
 	d := new(big.Rat).Sub(t, new(big.Rat).SetInt64(u))
 	d.Abs(d)
 	return c, d.Cmp(big.NewRat(1, 1000000)) < 0
+}
+
+// c18DevFloatHigh (evidence counter only, never part of a verdict): the deviation high threshold as
+// float64 arithmetic yields it (mean of used/capacity*100 summed in node order, plus deviation, times
+// capacity / 100, truncated) - tells how many exact placements are reachable by a float64 slip.
+func c18DevFloatHigh(tab *c18Table, row *c18Row, pass int, res corev1.ResourceName) int64 {
+	sum, n := 0.0, 0
+	for _, r := range tab.rows {
+		if r.measured {
+			sum += float64(r.u[pass][res]) / float64(r.n.alloc[res]) * 100.0
+			n++
+		}
+	}
+	pct := sum/float64(n) + tab.cfg.flt(pass, 1, res)
+	if pct > 100 {
+		pct = 100
+	}
+	return int64(pct * float64(row.n.alloc[res]) / 100)
+}
+
+// c18RawDropsDim (diagnostic only): the node has a raw-allocatable annotation and its pool names, in
+// either pass, a dimension the annotation does not list.
+func c18RawDropsDim(tab *c18Table, n *c18Node) bool {
+	s, ok := n.obj.Annotations[apiext.AnnotationNodeRawAllocatable]
+	if !ok {
+		return false
+	}
+	raw := corev1.ResourceList{}
+	_ = json.Unmarshal([]byte(s), &raw)
+	for pass := 0; pass < 2; pass++ {
+		for _, res := range tab.res[pass] {
+			if _, listed := raw[res]; !listed {
+				return true
+			}
+		}
+	}
+	return false
+}
+
+// c18WithinOneUnder: 0 <= t-u < 1, i.e. u is the last whole usage that is not above t.
+func c18WithinOneUnder(u int64, t *big.Rat) bool {
+	d := new(big.Rat).Sub(t, new(big.Rat).SetInt64(u))
+	return d.Sign() >= 0 && d.Cmp(big.NewRat(1, 1)) < 0
 }
 
 func c18Ceil(t *big.Rat) int64 {
@@ -680,8 +1105,11 @@ func c18BuildTable(w *c18World, cfg *c18PoolCfg) *c18Table {
 		}
 		prodPods := map[string]bool{}
 		for _, p := range row.pods {
+			if p.terminated {
+				continue // a Succeeded/Failed pod occupies nothing
+			}
 			if p.prod {
-				prodPods[p.name] = true
+				prodPods[p.key()] = true
 				row.u[c18PassProd][corev1.ResourcePods]++
 			}
 			row.u[c18PassNode][corev1.ResourcePods]++
@@ -695,11 +1123,11 @@ func c18BuildTable(w *c18World, cfg *c18PoolCfg) *c18Table {
 				v := c18QVal(res, pm.PodUsage.ResourceList)
 				m[res] = v
 				row.u[c18PassNode][res] += v
-				if prodPods[pm.Name] {
+				if prodPods[pm.Namespace+"/"+pm.Name] {
 					row.u[c18PassProd][res] += v
 				}
 			}
-			row.podM[pm.Name] = m
+			row.podM[pm.Namespace+"/"+pm.Name] = m
 		}
 		// the generator's promise: the measured usage equals the reported NodeUsage
 		for _, res := range []corev1.ResourceName{corev1.ResourceCPU, corev1.ResourceMemory} {
@@ -707,7 +1135,10 @@ func c18BuildTable(w *c18World, cfg *c18PoolCfg) *c18Table {
 				w.c.Harness("node %s: system+pods usage %d differs from NodeUsage", n.name, row.u[c18PassNode][res])
 			}
 			if row.u[c18PassNode][res] > n.alloc[res] {
-				w.c.Harness("node %s: usage above allocatable", n.name)
+				w.c.Count("node_rounds_usage_above_allocatable", 1)
+			}
+			if _, thresholded := cfg.pct[c18PassNode][1][res]; row.u[c18PassNode][res] > n.alloc[res]+n.alloc[res]/10 || row.u[c18PassNode][res] > n.alloc[res] && !thresholded {
+				w.c.Harness("node %s: usage above allocatable in a resource without whole-node threshold (or by more than 10 %%)", n.name)
 			}
 		}
 		for pass := 0; pass < 2; pass++ {
@@ -739,7 +1170,7 @@ func c18BuildTable(w *c18World, cfg *c18PoolCfg) *c18Table {
 					continue
 				}
 				for which := 0; which < 2; which++ {
-					pct := new(big.Rat).SetInt64(int64(cfg.pct[pass][which][res]))
+					pct := cfg.rat(pass, which, res)
 					if cfg.dev {
 						if which == 0 {
 							pct.Sub(avg, pct)
@@ -849,8 +1280,9 @@ func (tab *c18Table) dump() string {
 
 // c18FloatTruncated: does the shipped formula int64(pct*0.01*capacity) differ from the exact
 // percentage of the capacity? (diagnostic for the signature only)
-func c18FloatTruncated(pct int, alloc int64) bool {
-	return int64(float64(pct)*0.01*float64(alloc)) != int64(pct)*alloc/100
+func c18FloatTruncated(pct float64, alloc int64) bool {
+	q, _ := new(big.Rat).SetString(strconv.FormatFloat(pct, 'f', -1, 64))
+	return int64(pct*0.01*float64(alloc)) != c18Floor(q, alloc)
 }
 
 // checkRound applies the statement to every Evict call of the round.
@@ -881,8 +1313,15 @@ func (w *c18World) checkRound(round int, pools []*c18PoolCfg) {
 			}
 			c.Op("%s", line)
 		}(tab)
+		poolDrops := false // deviation thresholds: one such node distorts the mean, i.e. every node's thresholds
+		for _, row := range tab.rows {
+			if tab.cfg.dev && row.measured && c18RawDropsDim(tab, row.n) {
+				poolDrops = true
+			}
+		}
 		for _, row := range tab.rows {
 			n := row.n
+			n.rawDropsDim = poolDrops || c18RawDropsDim(tab, n)
 			switch {
 			case !row.measured:
 				if n.streak > 0 {
@@ -903,9 +1342,21 @@ func (w *c18World) checkRound(round int, pools []*c18PoolCfg) {
 			if row.measured {
 				for pass := 0; pass < 2; pass++ {
 					for _, res := range tab.res[pass] {
+						if tab.cfg.dev && !row.over0[0] && !row.over0[1] && c18WithinOneUnder(row.u[pass][res], row.hi[pass][res]) {
+							n.devOnThreshold = true
+						}
 						if cmp, _ := c18Cmp(row.u[pass][res], row.hi[pass][res]); cmp == 0 {
 							c.Count("threshold_exact_high", 1)
-							if !tab.cfg.dev && c18FloatTruncated(tab.cfg.pct[pass][1][res], n.alloc[res]) {
+							if tab.cfg.dev {
+								c.Count("threshold_exact_high_deviation", 1)
+								if c18DevFloatHigh(tab, row, pass, res) < row.u[pass][res] {
+									c.Count("threshold_exact_high_deviation_float64_mean_lower", 1)
+									if row.n.streak >= tab.cfg.need && tab.otherUnder(row, pass) {
+										c.Count("threshold_exact_high_deviation_float64_mean_lower_evictable", 1)
+									}
+								}
+							}
+							if !tab.cfg.dev && c18FloatTruncated(tab.cfg.flt(pass, 1, res), n.alloc[res]) {
 								c.Count("threshold_exact_high_float_truncated", 1)
 								if !row.over0[0] && !row.over0[1] {
 									n.truncOnThreshold = true
@@ -948,15 +1399,18 @@ func (w *c18World) checkRound(round int, pools []*c18PoolCfg) {
 		// pass in which the node is not over, does it sit exactly on a high threshold (one that the
 		// shipped float formula truncates?), or would it be over if evictions of pods without a pod
 		// metric were not counted in the pod count?
-		onThr, trunc, podCount := false, false, false
+		onThr, trunc, podCount, devNear := false, false, false, false
 		for pass := 0; pass < 2; pass++ {
 			if overNow[pass] {
 				continue
 			}
 			for _, res := range tab.res[pass] {
+				if tab.cfg.dev && c18WithinOneUnder(row.est[pass][res], row.hi[pass][res]) {
+					devNear = true
+				}
 				if cmp, _ := c18Cmp(row.est[pass][res], row.hi[pass][res]); cmp == 0 {
 					onThr = true
-					if !tab.cfg.dev && c18FloatTruncated(tab.cfg.pct[pass][1][res], row.n.alloc[res]) {
+					if !tab.cfg.dev && c18FloatTruncated(tab.cfg.flt(pass, 1, res), row.n.alloc[res]) {
 						trunc = true
 					}
 				}
@@ -969,10 +1423,18 @@ func (w *c18World) checkRound(round int, pools []*c18PoolCfg) {
 		}
 		diag := ""
 		switch {
+		case row.n.rawDropsDim && (tab.cfg.dev || row.est[c18PassNode][corev1.ResourcePods] > 0):
+			// identifying fact: amplified node (raw-allocatable lists cpu and memory only) in a pool that
+			// thresholds pods, and it still runs a pod (a zero pod capacity would make it "over"); with
+			// deviation thresholds one such node distorts the mean of the whole pool
+			diag = "/raw-allocatable-drops-unlisted-dimension"
 		case podCount:
 			diag = "/pod-count-ignores-metricless-evictions"
 		case trunc:
 			diag = "/on-threshold-float-truncated"
+		case devNear:
+			// the node sits on, or less than one unit under, the exact deviation threshold mean+deviation
+			diag = "/deviation-threshold-float"
 		}
 		if !overNow[0] && !overNow[1] {
 			kind := "continued-after-back-under"
@@ -985,7 +1447,7 @@ func (w *c18World) checkRound(round int, pools []*c18PoolCfg) {
 			}
 			c.Fail(sig, "%s: the node's usage (measured at the start of the round minus the reported usage of the pods already evicted from it) is above no high threshold, neither whole-node nor prod\n%s", where, tab.dump())
 		}
-		if row.n.streak < tab.cfg.need && !row.n.truncOnThreshold && row.n.maxRunBefore >= tab.cfg.need {
+		if row.n.streak < tab.cfg.need && row.n.maxRunBefore >= tab.cfg.need {
 			// An earlier run WAS long enough ("has been so for the required consecutive rounds" was true
 			// when the anomaly opened); a measured not-over round lies between it and now. The API's
 			// LoadAnomalyCondition.ConsecutiveNormalities documents a hysteresis that keeps an opened
@@ -995,8 +1457,12 @@ func (w *c18World) checkRound(round int, pools []*c18PoolCfg) {
 		} else if row.n.streak < tab.cfg.need {
 			sig := "C18/anomaly/short-streak"
 			switch {
+			case row.n.rawDropsDim:
+				sig += "/raw-allocatable-drops-unlisted-dimension"
 			case row.n.truncOnThreshold:
 				sig += "/on-threshold-float-truncated"
+			case row.n.devOnThreshold:
+				sig += "/deviation-threshold-float"
 			case row.n.overBeforeGap:
 				// no run was ever long enough: over-threshold rounds separated by not-over rounds add up
 				sig += "/after-interrupted-streak"
@@ -1167,10 +1633,10 @@ func (w *c18World) checkRound(round int, pools []*c18PoolCfg) {
 				still := row.overNow(tab, pass)
 				candidates := 0
 				for _, p := range row.pods {
-					if (pass == c18PassNode || p.prod) && c18FilterPasses(p.obj, w.calls) && !p.refuse {
+					if (pass == c18PassNode || p.prod) && !p.terminated && c18FilterPasses(p.obj, w.calls) && !p.refuse {
 						evicted := false
 						for _, ev := range w.events {
-							if ev.pod == p.name {
+							if ev.pod == p.key() {
 								evicted = true
 							}
 						}
@@ -1199,6 +1665,25 @@ func (w *c18World) checkRound(round int, pools []*c18PoolCfg) {
 	}
 }
 
+// c18Perms: all orders of 0..n-1 (n <= 4).
+func c18Perms(n int) [][]int {
+	var out [][]int
+	var rec func(cur []int, used int)
+	rec = func(cur []int, used int) {
+		if len(cur) == n {
+			out = append(out, append([]int(nil), cur...))
+			return
+		}
+		for i := 0; i < n; i++ {
+			if used&(1<<i) == 0 {
+				rec(append(cur, i), used|1<<i)
+			}
+		}
+	}
+	rec(nil, 0)
+	return out
+}
+
 func c18Cap(v, m int) int {
 	if v > m {
 		return m
@@ -1210,8 +1695,8 @@ func c18Cap(v, m int) int {
 // the unit
 
 func TestVerifC18Balance(t *testing.T) {
-	kit.Run(t, kit.Config{Property: "C18", Unit: "balance", Quick: 1500, Thorough: 400000,
-		Rule: "one case = one generated cluster (2-8 nodes, allocatable in multiples of 100 units, 1-2 node pools with absolute or deviation thresholds over cpu/memory/pods, optional prod thresholds, anomaly condition nil/1/2/3, NodeFit on/off, NumberOfNodes 0-2) balanced for 1-7 successive rounds by one real LowNodeLoad; per round every node draws a sticky role per pass (over/under/between) and usages are placed on, one unit beside, 1 % beside or at random distance from the thresholds; NodeMetrics missing/stale/without status; 0-10 pods per node with/without pod metrics, prod/batch, scripted evictor (filter never / until k-th eviction, Evict refused per pod or after a cap). distinct = (threshold mode, thresholded resources, anomaly need, streak, over-by pass, pod kind, outcome, attempts) per Evict call plus the end state per source node and the per-pool classification; non-trivial = a case in which at least one Evict call was checked"},
+	kit.Run(t, kit.Config{Property: "C18", Unit: "balance", Quick: 2500, Thorough: 400000,
+		Rule: "one case = one generated cluster (1-24 nodes, mostly 2-8; capacities equal or different, multiples of 100 units or arbitrary, cpu 100m-4096 cores, memory up to 32 TiB, pods 30-250; amplified nodes with raw-allocatable annotation; taints; 1-3 disjoint node pools selected by matchLabels or matchExpressions, absolute or deviation thresholds over cpu/memory/pods incl. fractional percentages and the 0/100 end points, optional prod thresholds, anomaly condition nil/1-5 abnormalities x 1-5 normalities, NodeFit on/off, NumberOfNodes 0-3, EvictableNamespaces/PodSelectors, nil weights) balanced for 1-10 successive rounds by one real LowNodeLoad; per round every node draws a sticky role per pass (over/under/between) and usages are placed on, one unit beside, 1 % beside or at random distance from the thresholds (up to 10 % above the allocatable for thresholded resources); in deviation pools one node is moved onto / one unit beside its own mean+-deviation boundary (exactly where capacities allow); NodeMetrics missing/stale/without status; 0-30 pods per node in two namespaces (same name in both possible), running or terminated, with/without pod metrics, prod/mid/batch/free by label or by spec.priority band, scripted evictor (filter never / until k-th eviction, Evict refused per pod or after a cap). distinct = (threshold mode, thresholded resources, anomaly need, streak, over-by pass, pod kind, outcome, attempts) per Evict call plus the end state per source node and the per-pool classification; non-trivial = a case in which at least one Evict call was checked"},
 		func(c *kit.Case) { c18Case(c) })
 }
 
@@ -1220,19 +1705,37 @@ func c18Case(c *kit.Case) {
 	w := &c18World{c: c, byName: map[string]*c18Pod{}}
 	// pools
 	var pools []*c18PoolCfg
-	switch r.Weighted(50, 20, 30) {
+	switch r.Weighted(47, 18, 27, 8) {
 	case 0:
 		pools = []*c18PoolCfg{c18GenPool(r, "all", "")}
 	case 1:
 		pools = []*c18PoolCfg{c18GenPool(r, "a", "a")}
-	default:
+	case 2:
 		pools = []*c18PoolCfg{c18GenPool(r, "a", "a"), c18GenPool(r, "b", "b")}
+	default:
+		pools = []*c18PoolCfg{c18GenPool(r, "a", "a"), c18GenPool(r, "b", "b"), c18GenPool(r, "c", "c")}
 	}
 	args := &deschedulerconfig.LowNodeLoadArgs{
 		NodeFit:                     r.Bool(),
-		NumberOfNodes:               int32([]int{0, 1, 2}[r.Weighted(80, 12, 8)]),
+		NumberOfNodes:               int32([]int{0, 1, 2, 3}[r.Weighted(78, 12, 7, 3)]),
 		NodeMetricExpirationSeconds: func() *int64 { v := int64(180); return &v }(),
 		DetectorCacheTimeout:        &metav1.Duration{Duration: time.Hour},
+	}
+	// the plugin's own pod filters (not the evictor's): exercised, never judged (the statement names only
+	// the evictor's filters); Evict calls for pods they exclude are counted
+	switch r.Weighted(86, 4, 4, 6) {
+	case 1:
+		args.EvictableNamespaces = &deschedulerconfig.Namespaces{Exclude: []string{"ns2"}}
+	case 2:
+		args.EvictableNamespaces = &deschedulerconfig.Namespaces{Include: []string{"default"}}
+	case 3:
+		args.PodSelectors = []deschedulerconfig.LowNodeLoadPodSelector{{Name: "sel", Selector: &metav1.LabelSelector{MatchLabels: map[string]string{c18PodSelLabel: "y"}}}}
+	}
+	argFiltered := func(pod *corev1.Pod) bool {
+		if args.EvictableNamespaces != nil && pod.Namespace == "ns2" {
+			return true
+		}
+		return len(args.PodSelectors) > 0 && pod.Labels[c18PodSelLabel] != "y"
 	}
 	for _, p := range pools {
 		np := deschedulerconfig.LowNodeLoadNodePool{
@@ -1245,47 +1748,150 @@ func c18Case(c *kit.Case) {
 			ResourceWeights:        map[corev1.ResourceName]int64{corev1.ResourceCPU: int64(r.Range(1, 3)), corev1.ResourceMemory: int64(r.Range(1, 3)), corev1.ResourcePods: 1},
 			AnomalyCondition:       p.anomaly,
 		}
+		if r.Pct(10) {
+			np.ResourceWeights = nil // sorting only
+		}
 		if p.selector != "" {
 			np.NodeSelector = &metav1.LabelSelector{MatchLabels: map[string]string{c18PoolLabel: p.selector}}
+			if p.exprSel {
+				np.NodeSelector = &metav1.LabelSelector{MatchExpressions: []metav1.LabelSelectorRequirement{{Key: c18PoolLabel, Operator: metav1.LabelSelectorOpIn, Values: []string{p.selector, "no-such-pool"}}}}
+			}
 		}
 		args.NodePools = append(args.NodePools, np)
 		c.Op("%s", p)
 	}
-	c.Op("args nodeFit=%v numberOfNodes=%d", args.NodeFit, args.NumberOfNodes)
+	c.Op("args nodeFit=%v numberOfNodes=%d evictableNamespaces=%v podSelectors=%d", args.NodeFit, args.NumberOfNodes, args.EvictableNamespaces, len(args.PodSelectors))
 	// nodes
 	nNodes := r.Range(2, 8)
+	switch r.Weighted(84, 6, 10) {
+	case 1:
+		nNodes = 1
+	case 2:
+		nNodes = r.Range(9, 24)
+	}
+	homogeneous := r.Pct(35) // every node has the capacity of the first one
+	round100 := r.Pct(70)    // allocatable in multiples of 100 units (every whole percentage is a whole amount)
 	for i := 0; i < nNodes; i++ {
 		n := &c18Node{name: fmt.Sprintf("n%d", i), alloc: map[corev1.ResourceName]int64{}}
 		n.alloc[corev1.ResourceCPU] = 100 * int64(r.Range(10, 640))
-		switch r.Intn(3) {
+		switch r.Weighted(3, 3, 94) {
+		case 0:
+			n.alloc[corev1.ResourceCPU] = 100 * int64(r.Range(1, 9))
+		case 1:
+			n.alloc[corev1.ResourceCPU] = 1000 * int64(r.Range(641, 4096))
+		}
+		switch r.Weighted(32, 32, 32, 4) {
 		case 0:
 			n.alloc[corev1.ResourceMemory] = 100 * int64(r.Range(100, 10000))
 		case 1:
 			n.alloc[corev1.ResourceMemory] = 100 * (int64(r.Range(1, 512)) << 20)
-		default:
+		case 2:
 			n.alloc[corev1.ResourceMemory] = 100 * int64(r.Range(10000000, 2000000000))
+		default:
+			n.alloc[corev1.ResourceMemory] = 100 * (int64(r.Range(2, 320)) << 30) // up to 32 TiB
 		}
-		n.alloc[corev1.ResourcePods] = int64(kit.Pick(r, []int{100, 100, 200}))
+		n.alloc[corev1.ResourcePods] = int64(kit.Pick(r, []int{100, 100, 200, 110, 110, 250, 64, 30}))
+		if !round100 {
+			n.alloc[corev1.ResourceCPU] += int64(r.Range(0, 99))
+			n.alloc[corev1.ResourceMemory] += int64(r.Range(0, 99))
+		}
+		if homogeneous && i > 0 {
+			for _, res := range c18Res {
+				n.alloc[res] = w.nodes[0].alloc[res]
+			}
+		}
 		switch len(pools) {
 		case 1:
 			n.pool = pools[0].selector
 			if n.pool != "" && r.Pct(15) {
 				n.pool = "none"
 			}
-		default:
+		case 2:
 			n.pool = []string{"a", "b", "none"}[r.Weighted(50, 42, 8)]
+		default:
+			n.pool = []string{"a", "b", "c", "none"}[r.Weighted(36, 32, 26, 6)]
 		}
-		n.obj = test.BuildTestNode(n.name, n.alloc[corev1.ResourceCPU], n.alloc[corev1.ResourceMemory], n.alloc[corev1.ResourcePods], func(node *corev1.Node) {
+		// node status: n.alloc is what percentages refer to. On a node with resource amplification the
+		// status carries amplified cpu/memory and the raw-allocatable annotation the un-amplified ones
+		// (the webhook always saves both cpu and memory, whichever of them is amplified; it never saves
+		// pods or any other dimension).
+		status := map[corev1.ResourceName]int64{}
+		for _, res := range c18Res {
+			status[res] = n.alloc[res]
+		}
+		var rawDims []corev1.ResourceName
+		if r.Pct(12) {
+			rawDims = []corev1.ResourceName{corev1.ResourceCPU, corev1.ResourceMemory}
+			amplified := [][]corev1.ResourceName{{corev1.ResourceCPU, corev1.ResourceMemory}, {corev1.ResourceCPU}, {corev1.ResourceMemory}}[r.Weighted(40, 45, 15)]
+			num := int64(kit.Pick(r, []int{3, 4, 6})) // ratio 1.5, 2, 3
+			for _, res := range amplified {
+				status[res] = n.alloc[res] * num / 2
+			}
+		}
+		n.obj = test.BuildTestNode(n.name, status[corev1.ResourceCPU], status[corev1.ResourceMemory], status[corev1.ResourcePods], func(node *corev1.Node) {
 			node.Labels[c18PoolLabel] = n.pool
-			node.Status.Allocatable[corev1.ResourceMemory] = *resource.NewQuantity(n.alloc[corev1.ResourceMemory], resource.BinarySI)
+			node.Status.Allocatable[corev1.ResourceMemory] = *resource.NewQuantity(status[corev1.ResourceMemory], resource.BinarySI)
+			if rawDims != nil {
+				raw := corev1.ResourceList{}
+				for _, res := range rawDims {
+					if res == corev1.ResourceCPU {
+						raw[res] = *resource.NewMilliQuantity(n.alloc[res], resource.DecimalSI)
+					} else {
+						raw[res] = *resource.NewQuantity(n.alloc[res], resource.BinarySI)
+					}
+				}
+				apiext.SetNodeRawAllocatable(node, raw)
+			}
+			if r.Pct(5) {
+				node.Spec.Taints = []corev1.Taint{{Key: c18TaintKey, Effect: corev1.TaintEffectNoSchedule}}
+			}
 		})
+		// the oracle's capacities are decoded from the node object, independently of the code under test
+		for res, want := range n.alloc {
+			if got := c18Capacity(c, n.obj, res); got != want {
+				c.Harness("node %s: decoded capacity %s=%d, generated %d", n.name, res, got, want)
+			}
+		}
 		n.obj.Spec.Unschedulable = r.Pct(8)
 		n.role = [2]int{r.Weighted(35, 40, 25), r.Weighted(25, 45, 30)}
 		w.nodes = append(w.nodes, n)
-		for k := r.Range(0, 10); k > 0; k-- {
+		k := r.Range(0, 10)
+		if r.Pct(6) {
+			k = r.Range(11, 30)
+		}
+		for ; k > 0; k-- {
 			w.addPod(r, n)
 		}
-		c.Op("node %s pool=%q alloc cpu=%dm memory=%d pods=%d", n.name, n.pool, n.alloc[corev1.ResourceCPU], n.alloc[corev1.ResourceMemory], n.alloc[corev1.ResourcePods])
+		c.Op("node %s pool=%q capacity cpu=%dm memory=%d pods=%d status.allocatable cpu=%dm memory=%d raw-allocatable=%v taints=%d", n.name, n.pool, n.alloc[corev1.ResourceCPU], n.alloc[corev1.ResourceMemory], n.alloc[corev1.ResourcePods], status[corev1.ResourceCPU], status[corev1.ResourceMemory], rawDims, len(n.obj.Spec.Taints))
+	}
+	switch {
+	case nNodes == 1:
+		c.Count("cases_single_node", 1)
+	case nNodes > 8:
+		c.Count("cases_more_than_8_nodes", 1)
+	}
+	if homogeneous && nNodes > 1 {
+		c.Count("cases_equal_capacities", 1)
+	}
+	if !round100 {
+		c.Count("cases_capacity_not_multiple_of_100", 1)
+	}
+	for _, n := range w.nodes {
+		if _, ok := n.obj.Annotations[apiext.AnnotationNodeRawAllocatable]; ok {
+			c.Count("amplified_nodes", 1)
+		}
+	}
+	for _, p := range pools {
+		for pass := 0; pass < 2; pass++ {
+			for _, res := range p.res(pass) {
+				if p.qtr[pass][0][res] != 0 || p.qtr[pass][1][res] != 0 {
+					c.Count("fractional_thresholds", 1)
+				}
+			}
+		}
+		if p.need >= 4 {
+			c.Count("pools_anomaly_need_4_or_5", 1)
+		}
 	}
 	poolOf := func(n *c18Node) *c18PoolCfg {
 		for _, p := range pools {
@@ -1309,7 +1915,7 @@ func c18Case(c *kit.Case) {
 		rounds = r.Range(5, 6)
 	}
 	if need := pools[0].need; need > 1 && rounds < need+1 && r.Pct(70) {
-		rounds = r.Range(need+1, 7) // enough rounds for the anomaly detectors to open
+		rounds = r.Range(need+1, need+5) // enough rounds for the anomaly detectors to open
 	}
 	var nodeObjs []*corev1.Node
 	for _, n := range w.nodes {
@@ -1361,6 +1967,13 @@ func c18Case(c *kit.Case) {
 			}
 			w.genMetrics(r, n, poolOf(n))
 			n.role = saved
+		}
+		for _, p := range pools {
+			if p.dev && r.Pct(80) {
+				w.devBoundary(r, p, round)
+			}
+		}
+		for _, n := range w.nodes {
 			if n.nm != nil {
 				if err := indexer.Add(n.nm); err != nil {
 					c.Harness("indexer: %v", err)
@@ -1371,7 +1984,10 @@ func c18Case(c *kit.Case) {
 				line += fmt.Sprintf(" system={cpu:%dm memory:%d}", c18QVal(corev1.ResourceCPU, n.nm.Status.NodeMetric.SystemUsage.ResourceList), c18QVal(corev1.ResourceMemory, n.nm.Status.NodeMetric.SystemUsage.ResourceList))
 			}
 			for _, p := range w.livePods(n.name) {
-				line += fmt.Sprintf(" %s[prod=%v filterUntil=%d refuse=%v", p.name, p.prod, p.filterUntil, p.refuse)
+				line += fmt.Sprintf(" %s[prod=%v filterUntil=%d refuse=%v", p.key(), p.prod, p.filterUntil, p.refuse)
+				if p.terminated {
+					line += " terminated"
+				}
 				if p.hasMetric {
 					line += fmt.Sprintf(" cpu=%dm", p.m[corev1.ResourceCPU])
 					if v, ok := p.m[corev1.ResourceMemory]; ok {
@@ -1384,7 +2000,7 @@ func c18Case(c *kit.Case) {
 			}
 			if n.nm != nil {
 				for _, pm := range n.nm.Status.PodsMetric {
-					if w.byName[pm.Name] == nil {
+					if w.byName[pm.Namespace+"/"+pm.Name] == nil {
 						line += fmt.Sprintf(" stale-entry %s[cpu=%dm memory=%d]", pm.Name, c18QVal(corev1.ResourceCPU, pm.PodUsage.ResourceList), c18QVal(corev1.ResourceMemory, pm.PodUsage.ResourceList))
 					}
 				}
@@ -1398,6 +2014,9 @@ func c18Case(c *kit.Case) {
 		status := pl.Balance(context.Background(), nodeObjs)
 		for _, ev := range w.events {
 			c.Op("round %d   Evict(%s on %s) -> %v  reason=%q", round, ev.pod, ev.node, ev.ok, ev.reason)
+			if p := w.byName[ev.pod]; p != nil && argFiltered(p.obj) {
+				c.Count("evict_calls_for_pods_excluded_by_plugin_args", 1)
+			}
 		}
 		c.Op("round %d Balance returned %v: %d Evict calls, %d Filter calls", round, status, len(w.events), w.filterCalls)
 		c.Count("rounds", 1)
@@ -1413,8 +2032,8 @@ func c18Case(c *kit.Case) {
 		if len(gone) > 0 {
 			kept := w.pods[:0]
 			for _, p := range w.pods {
-				if gone[p.name] {
-					delete(w.byName, p.name)
+				if gone[p.key()] {
+					delete(w.byName, p.key())
 					continue
 				}
 				kept = append(kept, p)
